@@ -155,6 +155,11 @@ pub trait Scenario: Sync {
     fn assumptions(&self) -> Vec<String> {
         vec![]
     }
+    /// Optional narrowing of a failing plan to the sub-run that failed (tested by the driver
+    /// before the generic minimiser runs).
+    fn narrow(&self, _plan: &Plan, _v: &Violation) -> Option<Plan> {
+        None
+    }
     /// Finding key components for KNOWN_FINDINGS matching.
     fn finding_key(&self, plan: &Plan, v: &Violation) -> String {
         format!("subject={} class={}", plan.subject, v.class)
